@@ -172,7 +172,7 @@ class History:
             r = t.get(name, [()])
             cols = r[0]
             return [dict(zip(cols, x)) for x in r[1:]]
-        return {'streams': rows('Stream'), 'files': rows('media_file'), 'keys': rows('Key'),
+        return {'streams': rows('Stream'), 'files': rows('media_file'), 'keys': rows('key'),
                 'mps': rows('mp_stream'), 'periods': rows('period'), 'blobs': rows('Blob')}
 
     def scripted_prefix(self, rng) -> list:
@@ -205,6 +205,33 @@ class History:
         for i, fname in enumerate(names):
             out.append(upload(fname, 1 + (i % 2 if two_streams else 0)))
             out.append(index_last)
+        # directed continuations (each reached too rarely by the random suffix)
+        tail = rng.random()
+        if tail < 0.25:
+            # delete the key the indexed files are encrypted with, then add an unrelated one
+            out.append(lambda w: G.op_delete_key(w['keys'][-1]['pk']) if w['keys'] else None)
+            out.append(lambda w: G.op_add_key('%032x' % rng.getrandbits(128), '%032x' % rng.getrandbits(128)))
+        elif tail < 0.5:
+            # make one file the timing reference and delete it through the URL of the *other* stream
+            def set_ref(w):
+                fs = [f for f in w['files'] if f.get('rep')]
+                if not fs:
+                    return None
+                f = fs[0]
+                s_ = next((x for x in w['streams'] if x['pk'] == f['stream']), None)
+                return G.op_edit_stream(s_['pk'], s_['title'], s_['directory'], timing_ref=f['name']) if s_ else None
+
+            def delete_via_other(w):
+                refs = [x for x in w['streams'] if x.get('timing_reference')]
+                others = [x for x in w['streams'] if not x.get('timing_reference')]
+                if not refs:
+                    return None
+                mine = [f for f in w['files'] if f['stream'] == refs[0]['pk'] and f.get('rep')]
+                if not mine:
+                    return None
+                via = (others or refs)[0]['pk']
+                return rng.choice([G.op_delete_media, G.op_delete_media_form])(via, mine[0]['pk'])
+            out += [set_ref, delete_via_other]
         return out
 
     def gen_op(self, rng, w: dict) -> dict:
@@ -267,12 +294,12 @@ class History:
         if kind == 'edit-media':
             f = rng.choice(files)
             return G.op_edit_media(f['stream'], f['pk'], rng.choice([1, 2, 3, 7]), rng.choice(['eng', 'fra', 'und', 'deu']))
-        if kind == 'delete-media':
+        if kind in ('delete-media', 'delete-media-form'):
             f = rng.choice(files)
-            return G.op_delete_media(f['stream'], f['pk'])
-        if kind == 'delete-media-form':
-            f = rng.choice(files)
-            return G.op_delete_media_form(f['stream'], f['pk'])
+            via = f['stream']
+            if len(streams) > 1 and rng.random() < 0.15:
+                via = rng.choice([x['pk'] for x in streams if x['pk'] != f['stream']])     # URL names another stream
+            return (G.op_delete_media if kind == 'delete-media' else G.op_delete_media_form)(via, f['pk'])
         if kind == 'add-key':
             return G.op_add_key('%032x' % rng.getrandbits(128), rng.choice([None, '%032x' % rng.getrandbits(128)]))
         if kind == 'add-key-form':
@@ -422,7 +449,7 @@ class History:
             wrong = [r for r in gone_files if r.get('stream') != spk]
             if wrong:
                 res.violation('stream-deletion-removes-files-of-another-stream', f'{op["url"]}: removed {wrong[:2]}', rp)
-            if t.get('Key') and t['Key']['n_removed']:
+            if t.get('key') and t['key']['n_removed']:
                 res.violation('stream-deletion-removes-shared-keys', f'{op["url"]}: removed keys {t["Key"]["removed"][:2]}', rp)
             other = [r for r in removed('Stream') if r.get('pk') != spk]
             if other:
@@ -434,7 +461,7 @@ class History:
                 res.violation('media-deletion-removes-other-files', f'{op["url"]}: removed {wrong[:2]}', rp)
             if t.get('Stream') and t['Stream']['n_removed'] > t['Stream']['n_added']:
                 res.violation('media-deletion-removes-stream', f'{op["url"]}', rp)
-            if t.get('Key') and t['Key']['n_removed'] > t['Key']['n_added']:
+            if t.get('key') and t['key']['n_removed'] > t['key']['n_added']:
                 # a key is never owned by one media file: it may have been supplied by a user and
                 # other files can be encrypted with it
                 res.violation('media-deletion-removes-keys', f'{op["url"]}: removed keys {t["Key"]["removed"][:2]}', rp)
@@ -449,13 +476,13 @@ class History:
                 if really_gone:
                     res.violation('upload-deletes-file-of-another-stream',
                                   f'{op["url"]} file {op["file"][0]}: removed media file(s) {really_gone[:2]} of another stream', rp)
-        if name in ('upload', 'index-media', 'edit-media') and t.get('Key') and t['Key']['n_removed'] > t['Key']['n_added']:
+        if name in ('upload', 'index-media', 'edit-media') and t.get('key') and t['key']['n_removed'] > t['key']['n_added']:
             res.violation(f'{name}-removes-keys', f'{op["url"]}: removed keys {t["Key"]["removed"][:2]}', rp)
         if name.startswith('delete-key'):
             if t.get('media_file') and t['media_file']['n_removed'] > t['media_file']['n_added']:
                 res.violation('key-deletion-removes-media-files', f'{op["url"]}', rp)
         if name == 'delete-mps':
-            if any(t.get(x) and t[x]['n_removed'] > t[x]['n_added'] for x in ('Stream', 'media_file', 'Blob', 'Key')):
+            if any(t.get(x) and t[x]['n_removed'] > t[x]['n_added'] for x in ('Stream', 'media_file', 'Blob', 'key')):
                 res.violation('mps-deletion-removes-shared-rows', f'{op["url"]}: {list(t)}', rp)
 
     def probe(self, rp, reported, op) -> None:
